@@ -238,6 +238,20 @@ func (fr *Frame) checkExit(st *State, fc *FuncContract, entryLocks map[string]st
 			b[n] = sv
 		}
 	}
+	// in postconditions parameter names denote their entry values
+	if r := sig.Recv(); r != nil {
+		if v, ok := fr.entry.vars[r]; ok {
+			b[r.Name()] = &SVal{T: v, Ty: r.Type()}
+		}
+	}
+	for i := 0; i < sig.Params().Len(); i++ {
+		p := sig.Params().At(i)
+		if v, ok := fr.entry.vars[p]; ok {
+			if _, shadow := b[p.Name()]; !shadow {
+				b[p.Name()] = &SVal{T: v, Ty: p.Type()}
+			}
+		}
+	}
 	// lock balance
 	bal := sameLocks(st.locks, entryLocks)
 	var heldNow []string
@@ -277,10 +291,32 @@ func (fr *Frame) checkExit(st *State, fc *FuncContract, entryLocks map[string]st
 // references that were allocated at entry).
 func (fr *Frame) checkFrame(st *State, fc *FuncContract, nret int) {
 	e := fr.e
-	entry := fr.entry
-	allowed := map[string][]*Term{} // key -> refs that may change ; nil entry with key present => whole key
+	var keys []string
+	for k := range st.heap {
+		keys = append(keys, k)
+	}
+	sort.Strings(keys)
+	for _, k := range keys {
+		if g := fr.frameFact(st, k); g != nil {
+			e.oblige(fr, st, "frame", shortKey(k), nret, g, nil, nil, "only what `modifies` names may change")
+		}
+	}
+}
+
+// frameAllowed computes, once per verified function, what `modifies` permits per heap key.
+func (fr *Frame) frameAllowed() (map[string][]*Term, map[string]bool) {
+	top := fr.top
+	if top.allowed != nil {
+		return top.allowed, top.wholeOK
+	}
+	e := fr.e
+	allowed := map[string][]*Term{}
 	whole := map[string]bool{}
-	for _, m := range fc.Modifies {
+	top.allowed, top.wholeOK = allowed, whole
+	if top.fc == nil {
+		return allowed, whole
+	}
+	for _, m := range top.fc.Modifies {
 		if m.Kind == "id" {
 			whole["ghost:"+m.Name] = true
 			continue
@@ -288,7 +324,7 @@ func (fr *Frame) checkFrame(st *State, fc *FuncContract, nret int) {
 		if m.Kind != "sel" {
 			continue
 		}
-		base := fr.evalSpecPkg(entry.Clone(), m.Args[0], nil, nil, "")
+		base := top.evalSpecPkg(top.entry.Clone(), m.Args[0], nil, nil, "")
 		bt := base.Ty
 		if p, ok := bt.Underlying().(*types.Pointer); ok {
 			bt = p.Elem()
@@ -320,35 +356,37 @@ func (fr *Frame) checkFrame(st *State, fc *FuncContract, nret int) {
 			}
 		}
 	}
-	var keys []string
-	for k := range st.heap {
-		keys = append(keys, k)
+	return allowed, whole
+}
+
+// frameFact: heap key k differs from the function's entry state only where `modifies` allows
+// (or at objects allocated since entry). nil when trivially true.
+func (fr *Frame) frameFact(st *State, k string) *Term {
+	e := fr.e
+	entry := fr.top.entry
+	allowed, whole := fr.frameAllowed()
+	if k == "$alloc" || strings.HasPrefix(k, "box$") || strings.HasPrefix(k, "cell:") || whole[k] || fr.top.lockedKeys[k] {
+		return nil
 	}
-	sort.Strings(keys)
+	nv, ok := st.heap[k]
+	if !ok {
+		return nil
+	}
+	ov, ok := entry.heap[k]
+	if !ok {
+		ov = Var("H0$"+smtIdent(strings.TrimPrefix(k, jivaMod+"/")), nv.S)
+	}
+	if nv == ov || nv.String() == ov.String() {
+		return nil
+	}
+	if strings.HasPrefix(k, "global:") || strings.HasPrefix(k, "ghost:") {
+		return Eq(nv, ov)
+	}
 	alloc0 := e.Heap(entry, "$alloc", ArrSort(IntSort, BoolSort))
-	for _, k := range keys {
-		if k == "$alloc" || strings.HasPrefix(k, "box$") || strings.HasPrefix(k, "cell:") || whole[k] {
-			continue
-		}
-		nv := st.heap[k]
-		ov, ok := entry.heap[k]
-		if !ok {
-			ov = Var("H0$"+smtIdent(strings.TrimPrefix(k, jivaMod+"/")), nv.S)
-		}
-		if nv == ov || nv.String() == ov.String() {
-			continue
-		}
-		var g *Term
-		if strings.HasPrefix(k, "global:") || strings.HasPrefix(k, "ghost:") {
-			g = Eq(nv, ov)
-		} else {
-			r := Var("r!f", IntSort)
-			cond := Select(alloc0, r)
-			for _, a := range allowed[k] {
-				cond = And(cond, Neq(r, a))
-			}
-			g = Forall([]*Term{r}, Implies(cond, Eq(Select(nv, r), Select(ov, r))))
-		}
-		e.oblige(fr, st, "frame", shortKey(k), nret, g, nil, nil, "only what `modifies` names may change")
+	r := Var("r!f", IntSort)
+	cond := Select(alloc0, r)
+	for _, a := range allowed[k] {
+		cond = And(cond, Neq(r, a))
 	}
+	return Forall([]*Term{r}, Implies(cond, Eq(Select(nv, r), Select(ov, r))))
 }
